@@ -188,6 +188,7 @@ type ChildReq struct {
 	History []string  `json:"history,omitempty"`
 	Flags   []bool    `json:"flags,omitempty"`    // state of the shared default-rule flags before the call
 	PrePack string    `json:"pre_pack,omitempty"` // pack this directory first with the same Packer value
+	Reuse   bool      `json:"reuse,omitempty"`    // unpack: the Packer value has already unpacked another slug elsewhere
 	Build   *BuildReq `json:"build,omitempty"`    // op "build": run the bundle builder (stream prepare)
 }
 
